@@ -530,3 +530,44 @@ def session_replay(res, prop, tier, seed, wd, kinds):
                      extra_args=["--dir", wd, "--seed", seed, "--only", kinds])
     res.coverage["session"] = {"states": r["states"], "behaviours_replayed": r["behaviours"], "kinds_reported": kinds}
     return r
+
+
+def c13(tier, seed):
+    res = Result("C13", tier, seed, "exploration")
+    wd = workdir("C13")
+    tr = os.path.join(wd, "conealg.ndjson")
+    cnt = 3000 if tier == "quick" else 100000
+    p = run_vh(["conealg", "--seed", seed, "--count", cnt, "--out", tr], timeout=4 * 3600)
+    meta = json.loads(p.stdout.strip().splitlines()[-1])
+    v = validate_trace("ConeAlgebra.tla", "ConeAlgebra.cfg", tr, nshards=10, boundary=lambda e: True)
+    if not v["ok"]:
+        groups = {}
+        for rj in v["rejects"]:
+            e = rj["event"] or {}
+            if e.get("ev") != "SymCone":
+                cls = "panic:" + str(e.get("cone"))
+            else:
+                ids = e.get("ids", {})
+                from vlib import fdec
+                failing = sorted(k for k, (er, tl) in ids.items() if not fdec(er) <= fdec(tl))
+                cls = f"{e.get('cone')}:{'+'.join(failing[:3]) or ('scaling_failed' if not e.get('scaled_ok') else 'missing_identity')}"
+            groups.setdefault(cls, []).append(e)
+        for cls, evs in list(groups.items())[:15]:
+            e = evs[0]
+            case = {k: e.get(k) for k in ("s", "z", "x", "y", "sigma_mu", "y_interior")}
+            case["cone"] = e.get("cone_spec")
+            case["run"] = 0
+            payload = {"kind": "conealg-replay", "prop": "C13", "event": {k: e[k] for k in e if k not in ("s", "z", "x", "y")}, "count": len(evs),
+                       "spec": "ConeAlgebra.tla", "cfg": "ConeAlgebra.cfg", "case": case}
+            res.violation("conealg-" + cls.replace(":", "_").replace("+", "_")[:70], payload, f"{len(evs)} scaled cones violate {cls}", key=cls)
+    res.coverage = {"evaluations": v["events"], "distinct_nontrivial": v["events"],
+                    "rule": "one evaluation = one symmetric cone (nonnegative dim 1-6, second-order dim 2-9 on both sides of the sparse-expansion threshold, PSD n = 1-4) "
+                            "scaled at a generated interior pair (s, z) - centred, magnitudes 1e-4..1e4 on either side, or within 1e-6..1e-2 relative distance of the "
+                            "boundary - with random vectors x, y; 16 identities per evaluation (Nesterov-Todd point, W / W^-1 inverse and transpose consistency, KKT block = "
+                            "mul_Hs = W'W, Jordan product by definition / commutative / division, affine and corrector terms, slack-recovery offset), each an "
+                            "<<error, tolerance>> pair formed by the observer and decided by TLC; tolerance 1e-11 * kappa^2 / (relative boundary distance) * size of terms",
+                    "by_family": meta.get("by_family"),
+                    "samples": [{k: e.get(k) for k in ("cone", "dim", "family", "y_interior", "scaled_ok")} for e in sample(read_ndjson(tr), 3)], "exhaustive": False,
+                    "trusted_base": ["TLC", "FloatOrd", "observer Jordan products and inner products", "hook sym_cone_battery"]}
+    res.assumptions = ["numerical identities are accepted up to the stated conditioning-dependent tolerance; points closer than 1e-6 (relative) to the boundary are not generated"]
+    return res
